@@ -1,0 +1,26 @@
+//go:build verif
+
+package checker
+
+// Machine-checked contracts for the type checker (see /verif/DESIGN.md, C12).
+// This file contains no declarations: it only carries specification comments
+// that the elkvc verification-condition generator reads.
+
+/*@
+// ---- checking a method or closure body leaves the enclosing context alone -------------------
+// checkMethod is entered recursively for every closure literal inside a body.  What the
+// checker knows about the ENCLOSING method while it checks that body — the declared return
+// and throw types `return`/`throw` statements are checked against, the mode, the flags, the
+// catch scopes — must be the same after the closure has been checked: otherwise binding an
+// unused local to a closure changes the verdict on the statements that follow it.
+func (*Checker).checkMethod
+  props C12
+  nosafety
+  partial
+  requires c != nil
+  ensures returnType: c.returnType == old(c.returnType)
+  ensures throwType: c.throwType == old(c.throwType)
+  ensures mode: c.mode == old(c.mode)
+  ensures flags: c.flags == old(c.flags)
+  ensures catchScopes: c.catchScopes == old(c.catchScopes) && len(c.catchScopes) == old(len(c.catchScopes))
+@*/
